@@ -1247,6 +1247,8 @@ class ClientRequest(ClientRequestBase):
                 self.method not in self.GET_METHODS
                 and not self.chunked
                 and hdrs.CONTENT_LENGTH not in self.headers
+                and "chunked"
+                not in self.headers.get(hdrs.TRANSFER_ENCODING, "").lower()
             ):
                 self.headers[hdrs.CONTENT_LENGTH] = "0"
             return
